@@ -29,11 +29,13 @@ from engine.gen import cookies as G
 from engine.runner import Ctx
 from engine.tlc import MachineryError, mktemp, run_tlc, simulate_behaviours, validate_batch
 
-DEVS = ["hostOnlyKey", "staleExpiry", "pathAlias", "domainCase"]
+DEVS = ["hostOnlyKey", "staleExpiry", "pathAlias", "domainCase", "epochExpires", "badMaxAge"]
 DEV_NAME = {"hostOnlyKey": "Dev_HostOnlyKey", "staleExpiry": "Dev_StaleExpiry",
-            "pathAlias": "Dev_PathAlias", "domainCase": "Dev_DomainCase"}
+            "pathAlias": "Dev_PathAlias", "domainCase": "Dev_DomainCase",
+            "epochExpires": "Dev_EpochExpires", "badMaxAge": "Dev_BadMaxAge"}
 STIM_FIELDS = ("ev", "host", "path", "scheme", "name", "val", "dom", "pth", "secure", "maxage", "expires", "d", "n",
-               "re")
+               "re", "via", "start", "rc")
+STIM_DEFAULTS = {"re": 0, "via": "jar", "start": False, "rc": [0, 0]}
 
 
 # ---------------------------------------------------------------- patched clock
@@ -196,16 +198,16 @@ class Exec:
         return row
 
     def do(self, st: dict) -> None:
-        e = {k: copy.deepcopy(st.get(k, 0) if k == "re" else st[k]) for k in STIM_FIELDS}
+        e = {k: copy.deepcopy(st.get(k, STIM_DEFAULTS[k]) if k in STIM_DEFAULTS else st[k]) for k in STIM_FIELDS}
         ev = e["ev"]
-        e["via"] = self.mode
+        if self.mode != "hops":
+            e["via"] = self.mode
         if ev == "Receive":
             hdr = G.render_set_cookie(e, self.rng if self.spelling else None)
             url = G.url_str(e["scheme"], e["host"], e["path"])
             if self.mode == "session":
                 self.origin.set_cookie = hdr  # type: ignore[union-attr]
-                q = G.blank_event("Query")
-                q.update({"host": e["host"], "path": e["path"], "scheme": e["scheme"], "via": "session"})
+                q = G.hop_event(True, e["host"], e["path"], e["scheme"])      # the GET that fetches it
                 q["obs"] = [self._get(url)]
                 self.origin.set_cookie = None  # type: ignore[union-attr]
                 self.events.append(q)
@@ -222,14 +224,15 @@ class Exec:
             self.nsave += 1
             path = os.path.join(self.scratch, f"jar{self.nsave % 4}.json")
             self.jar.save(path)
-            if self.mode == "session" or self.rng.random() < 0.5:
+            if self.mode != "jar" or self.rng.random() < 0.5:
                 self.jar.load(path)
             else:
                 self.jar = self.CookieJar(unsafe=self.unsafe)
                 self.jar.load(path)
         elif ev == "Query":
             url = G.url_str(e["scheme"], e["host"], e["path"])
-            if self.mode == "session":
+            if self.mode == "session":                 # a GET of its own: the first (only) hop of a request
+                e["ev"], e["start"] = "Hop", True
                 e["obs"] = [self._get(url)]
             else:
                 e["obs"] = [self.row({k: m.value for k, m in self.jar.filter_cookies(self.URL(url)).items()})]
@@ -256,14 +259,138 @@ class Exec:
                 "src": src, "events": self.events}
 
 
+class HopExec(Exec):
+    """Session level: a real ClientSession (engine.clikit.ClientKit: real _request loop, ClientRequest,
+    ResponseHandler, parser and CookieJar on in-memory transports) whose peer is scripted by the
+    history.  Every request the client writes is one Hop event whose observation is the Cookie header
+    on the wire; the peer answers a hop with a 3xx to the next hop's URL or with the final 200, with
+    or without Set-Cookie; jar-level stimuli in between act on the session's jar while the request
+    waits for its response."""
+
+    def __init__(self, unsafe: bool, loop: steploop.StepLoop, rng: Any, scratch: str,
+                 battery: Optional[List[dict]] = None, spelling: bool = False) -> None:
+        super().__init__(unsafe, "hops", loop, rng, scratch, battery=battery, spelling=spelling)
+        from engine.clikit import ClientKit
+
+        self.kit = ClientKit(loop, session_kw={"cookie_jar": self.jar})
+        self.task: Any = None
+        self.cur: Any = None            # PeerConn that carried the last hop
+        self.cur_url: Optional[dict] = None
+        self.seen: Dict[int, int] = {}
+        self.hop_ready = False          # the redirect to the next hop has already been answered
+        self.nreq = 0
+
+    def _new_requests(self) -> List[Tuple[Any, dict]]:
+        new = []
+        for c in self.kit.conns:
+            rq = c.requests()
+            for r in rq[self.seen.get(c.idx, 0):]:
+                new.append((c, r))
+            self.seen[c.idx] = len(rq)
+        return new
+
+    def _respond(self, nxt: Optional[dict], set_cookie: Optional[str]) -> None:
+        from engine.clikit import http_response
+
+        headers = []
+        status = 200
+        if nxt is not None:
+            status = self.rng.choice([301, 302, 303, 307, 308])
+            same_origin = (self.cur_url is not None and nxt["host"] == self.cur_url["host"]
+                           and nxt["scheme"] == self.cur_url["scheme"])
+            loc = G.url_str(nxt["scheme"], nxt["host"], nxt["path"])
+            if same_origin and self.rng.random() < 0.5:
+                loc = G.path_str(nxt["path"])            # relative reference
+            headers.append(("Location", loc))
+        if set_cookie is not None:
+            headers.append(("Set-Cookie", set_cookie))
+        if self.cur is None or not self.cur.open:
+            raise MachineryError("no open connection to answer the hop on")
+        self.cur.feed(http_response(status, headers, b"", reason="X"))
+        self.loop.run_until_idle()  # type: ignore[union-attr]
+
+    def finish(self) -> None:
+        if self.task is not None and not self.task.done():
+            self._respond(None, None)
+        if self.task is not None:
+            if not self.task.done():
+                raise MachineryError("request did not finish after its final response")
+            exc = self.task.exception()
+            if exc is not None:
+                raise MachineryError(f"session request failed: {exc!r}")
+        self.task = None
+        self.hop_ready = False
+
+    def do_hop(self, st: dict) -> None:
+        e = {k: copy.deepcopy(st.get(k, STIM_DEFAULTS[k]) if k in STIM_DEFAULTS else st[k]) for k in STIM_FIELDS}
+        e["via"] = "session"
+        url = G.url_str(e["scheme"], e["host"], e["path"])
+        if e["start"]:
+            self.finish()
+            cookies = {nm: str(v) for nm, v in zip(G.NAMES, e["rc"]) if v} or None
+            session = self.kit.session
+
+            async def go() -> None:
+                async with session.get(url, cookies=cookies, max_redirects=40) as r:
+                    await r.read()
+
+            self.nreq += 1
+            self.task = self.kit.spawn(f"r{self.nreq}", go())
+            self.loop.run_until_idle()  # type: ignore[union-attr]
+        else:
+            if self.task is None or self.task.done():
+                raise MachineryError("history continues a request that is not in flight")
+            if not self.hop_ready:
+                self._respond(e, None)
+        new = self._new_requests()
+        if len(new) != 1:
+            raise MachineryError(f"expected one request on the wire for hop {url}, saw {len(new)}")
+        conn, rq = new[0]
+        got = f"{'https' if conn.key.is_ssl else 'http'}://{conn.key.host}{rq['target'].partition('?')[0]}"
+        if got != url:
+            raise MachineryError(f"hop went to {got}, the history says {url}")
+        self.cur, self.cur_url = conn, e
+        self.hop_ready = False
+        sent = parse_cookie_header([v for k, v in rq["headers"] if k.lower() == "cookie"])
+        row = self.row({k: v[0] for k, v in sent.items()})
+        if any(len(v) > 1 for v in sent.values()):
+            row[0] = -1
+        e["obs"] = [row]
+        e["hdr"] = ""
+        self.events.append(e)
+
+    def do_resp_cookie(self, st: dict, nxt: Optional[dict]) -> None:
+        """Receive via the session: the response to the hop in flight carries this Set-Cookie; it is the
+        redirect to the next hop if the history continues with one, the final response otherwise."""
+        e = {k: copy.deepcopy(st.get(k, STIM_DEFAULTS[k]) if k in STIM_DEFAULTS else st[k]) for k in STIM_FIELDS}
+        if self.task is None or self.task.done() or self.hop_ready:
+            raise MachineryError("history has a response Set-Cookie without a hop waiting for its response")
+        e["hdr"] = G.render_set_cookie(e, self.rng if self.spelling else None)
+        redirect = nxt is not None and nxt["ev"] == "Hop" and not nxt.get("start")
+        self._respond(nxt if redirect else None, e["hdr"])
+        self.hop_ready = redirect
+        e["obs"] = self.obs()
+        self.events.append(e)
+
+    def close(self) -> None:
+        try:
+            self.finish()
+        finally:
+            self.kit.close()
+
+
 def execute(stimuli: List[dict], unsafe: bool, mode: str, loop: Optional[steploop.StepLoop], rng: Any,
             scratch: str, src: str, spelling: bool = False, battery: Optional[List[dict]] = None) -> dict:
     """Run a history.  The k-th Receive carries the fresh value k, unless it re-sends the value of an
     earlier Receive (re = ordinal of that Receive)."""
-    x = Exec(unsafe, mode, loop, rng, scratch, battery=battery, spelling=spelling)
+    if mode == "hops":
+        assert loop is not None
+        x: Exec = HopExec(unsafe, loop, rng, scratch, battery=battery, spelling=spelling)
+    else:
+        x = Exec(unsafe, mode, loop, rng, scratch, battery=battery, spelling=spelling)
     vals: List[int] = []
     try:
-        for st in stimuli:
+        for i, st in enumerate(stimuli):
             st = dict(st)
             if st["ev"] == "Receive":
                 re_ = st.get("re", 0)
@@ -271,7 +398,12 @@ def execute(stimuli: List[dict], unsafe: bool, mode: str, loop: Optional[steploo
                     re_ = st["re"] = 0           # (a shortened history lost the write it referred to)
                 vals.append(vals[re_ - 1] if re_ else len(vals) + 1)
                 st["val"] = vals[-1]
-            x.do(st)
+            if isinstance(x, HopExec) and st["ev"] == "Hop":
+                x.do_hop(st)
+            elif isinstance(x, HopExec) and st["ev"] == "Receive" and st.get("via") == "session":
+                x.do_resp_cookie(st, stimuli[i + 1] if i + 1 < len(stimuli) else None)
+            else:
+                x.do(st)
     finally:
         x.close()
     return x.trace(src)
@@ -303,16 +435,16 @@ def _dev_subsets() -> List[Tuple[str, ...]]:
     """Same order as CookieStoreTrace!DevSubsets (frequent explanations first, small sets first)."""
     import itertools
 
-    order = [0, 3, 2, 1]
+    order = [2, 4, 5, 0, 3, 1]
     out = []
-    for k in range(1, 5):
+    for k in range(1, 7):
         for c in itertools.combinations(order, k):
             out.append(tuple(DEVS[i] for i in sorted(c)))
     # deviations repaired in /repo are no longer admissible explanations (CookieStoreTrace!StillPresent)
     return [t for t in out if all(d in STILL_PRESENT for d in t)]
 
 
-STILL_PRESENT = {"pathAlias"}
+STILL_PRESENT = {"pathAlias", "epochExpires", "badMaxAge"}
 
 
 def _unused() -> list:
@@ -329,9 +461,9 @@ def describe(t: dict, pos: int, at: int) -> Tuple[str, dict]:
     if e is None:
         return "", info
     info["event"] = {k: e[k] for k in ("ev", "hdr", "n", "d") if k in e}
-    if e["ev"] in ("Receive", "Query"):
+    if e["ev"] in ("Receive", "Query", "Hop"):
         info["event"]["url"] = G.url_str(e["scheme"], e["host"], e["path"])
-    if e["ev"] == "Query":
+    if e["ev"] in ("Query", "Hop"):
         q = {"host": e["host"], "path": e["path"], "scheme": e["scheme"]}
         row = e["obs"][0]
     elif at and 1 <= at <= len(t["cfg"]["battery"]):
@@ -348,28 +480,38 @@ def history_text(t: dict, upto: int) -> List[str]:
     out = []
     for e in t["events"][: upto + 1]:
         if e["ev"] == "Receive":
-            out.append(f"Receive {G.url_str(e['scheme'], e['host'], e['path'])}  Set-Cookie: {e['hdr']}")
+            out.append(("response sets" if e.get("via") == "session" and "start" in e else "Receive")
+                       + f" {G.url_str(e['scheme'], e['host'], e['path'])}  Set-Cookie: {e['hdr']}")
         elif e["ev"] == "Tick":
             out.append(f"Tick +{e['n']}s")
         elif e["ev"] == "ClearDomain":
             out.append(f"clear_domain({G.host_str(e['d'])})")
         elif e["ev"] == "Query":
             out.append(f"Query {G.url_str(e['scheme'], e['host'], e['path'])} via {e.get('via')}")
+        elif e["ev"] == "Hop":
+            rc = {nm: v for nm, v in zip(G.NAMES, e.get("rc", [])) if v}
+            out.append(("GET " if e.get("start") else "  redirected to ") + G.url_str(e['scheme'], e['host'], e['path'])
+                       + (f" cookies={rc}" if rc else "") + f"  [Cookie header: {dict(zip(G.NAMES, e['obs'][0]))}]")
         else:
             out.append(e["ev"])
     return out
 
 
 def stimuli_of(t: dict) -> List[dict]:
-    """The stimuli of a recorded trace (a session-mode Receive recorded an extra Query before it)."""
+    """The stimuli of a recorded trace (mode 'session' recorded the fetching GET as a Hop before every
+    Receive, and its stand-alone queries as Hops)."""
     out = []
     ev = t["events"]
+    legacy = t["cfg"].get("mode") == "session"
     for i, e in enumerate(ev):
-        if (e["ev"] == "Query" and e.get("via") == "session" and i + 1 < len(ev)
+        if (legacy and e["ev"] in ("Query", "Hop") and i + 1 < len(ev)
                 and ev[i + 1]["ev"] == "Receive" and ev[i + 1].get("via") == "session"
                 and ev[i + 1]["host"] == e["host"] and ev[i + 1]["path"] == e["path"]):
             continue
-        out.append({k: (e.get(k, 0) if k == "re" else e[k]) for k in STIM_FIELDS})
+        st = {k: (e.get(k, STIM_DEFAULTS[k]) if k in STIM_DEFAULTS else e[k]) for k in STIM_FIELDS}
+        if legacy and st["ev"] == "Hop":
+            st["ev"] = "Query"
+        out.append(st)
     return out
 
 
@@ -451,8 +593,9 @@ CONSTANTS
   Paths <- {paths}
   Names = {names}
   DomKinds <- {kinds}
-  MaxAges <- MaxAgesFull
+  MaxAges <- {maxages}
   Expiries <- {expiries}
+  Sessions = {sessions}
   Schemes = {{"http", "https"}}
   MaxSteps = {steps}
   MaxTime = 13
@@ -470,12 +613,14 @@ INVARIANT InvSaveLoadIsIdentity
 
 def write_cfg(name: str, *, spec: str = "Spec", hosts: str = "HostsSmall", paths: str = "PathsSmall",
               names: str = '{"n"}', kinds: str = "KindsSmall", expiries: str = "ExpiriesSmall", steps: int = 3,
-              cf: str = "CfProperty", view: bool = True, selfjudge: bool = True) -> str:
+              cf: str = "CfProperty", view: bool = True, selfjudge: bool = True, maxages: str = "MaxAgesFull",
+              sessions: bool = False) -> str:
     d = mktemp("c16cfg")
     p = os.path.join(d, f"CookieStoreMC_{name}.cfg")
     with open(p, "w") as f:
         f.write(MODEL_CFG.format(spec=spec, hosts=hosts, paths=paths, names=names, kinds=kinds, expiries=expiries,
                                  steps=steps, cf=cf, view="VIEW View\n" if view else "",
+                                 maxages=maxages, sessions="TRUE" if sessions else "FALSE",
                                  selfjudge="INVARIANT InvJudgeSelf\n" if selfjudge else ""))
     return p
 
@@ -565,8 +710,8 @@ def run(ctx: Ctx) -> None:
     traces: List[dict] = []
     for cfname, cf, unsafe in (("simsafe", "CfProperty", False), ("simunsafe", "CfUnsafe", True)):
         cfg = write_cfg(cfname, spec="SpecSim", hosts="HostsFull", paths="PathsFull", names='{"n", "m"}',
-                        kinds="KindsFull", expiries="ExpiriesFull", steps=ctx.pick(8, 10), cf=cf, view=False,
-                        selfjudge=False)
+                        kinds="KindsFull", expiries="ExpiriesSim", maxages="MaxAgesSim", steps=ctx.pick(9, 11), cf=cf,
+                        view=False, selfjudge=False, sessions=True)
         num = ctx.pick(100, 1000) if not unsafe else ctx.pick(30, 300)
         behs, res = simulate_behaviours("CookieStoreMC", cfg, num=num, depth=ctx.pick(9, 11), seed=ctx.seed, timeout=600)
         m = re.search(r"number of states generated: (\d+)", res.output)
@@ -575,14 +720,22 @@ def run(ctx: Ctx) -> None:
         ctx.add_model(f"CookieStoreMC(simulate full lattice, unsafe={unsafe})", res, exhaustive=False)
         hs = behaviours_to_histories(behs)
         for k, h in enumerate(hs):
-            mode = "session" if k % 6 == 0 else "jar"
+            if any(e["ev"] == "Hop" for e in h):
+                mode = "hops"               # requests of a real ClientSession, hop by hop
+            else:
+                mode = "session" if k % 6 == 0 else "jar"
             traces.append(execute(h, unsafe, mode, loop, ctx.rng, scratch, "tlc-sim"))
         ctx.log(f"replayed {len(hs)} simulated behaviours (unsafe={unsafe})")
     J.judge(traces, "tlc-sim")
     # ---- 3. code -> spec: seeded random histories (spelling variants of the header grammar)
-    n = ctx.pick(700, 6000)
+    n = ctx.pick(750, 6000)
     batch: List[dict] = []
     for k in range(n):
+        if k % 3 == 2:      # session level: requests with redirects, response cookies, cookies=, jar changes between hops
+            h = G.random_session_history(ctx.rng)
+            batch.append(execute(h["stimuli"], h["unsafe"], "hops", loop, ctx.rng, scratch, "random-session",
+                                 spelling=True))
+            continue
         h = G.random_history(ctx.rng, queries=(k % 5 == 0))
         mode = "session" if k % 5 == 0 else "jar"
         bat = G.battery(schemes=["ws", "wss"]) if k % 10 == 3 else None     # Secure applies to wss, not to ws
@@ -644,10 +797,29 @@ def selftest(ctx: Ctx) -> int:
     b = copy.deepcopy(good2)     # ... as if the stored cookie had kept its old attributes
     b["events"][1]["obs"] = copy.deepcopy(good2["events"][0]["obs"])
     bad.append(("SecureLeak", b))
+    # session level: /p cookie, request to /p/q with cookies={m}, same-origin redirect to /pq, then to another host
+    h3 = [R(G.EXAMPLE, G.ROOT, "http", "n", 1, G.resolve_dom(G.EXAMPLE, "absent"), G.PATHS[1], False, -1, 0),
+          G.hop_event(True, G.EXAMPLE, G.PATHS[3], "http", [0, 1002]),
+          G.hop_event(False, G.EXAMPLE, G.PATHS[4], "http"),
+          G.hop_event(False, G.A_EX, G.PATHS[3], "http")]
+    good3 = execute(h3, False, "hops", loop, ctx.rng, scratch, "selftest")
+    rows3 = [e["obs"][0] for e in good3["events"][1:]]
+    print("session trace Cookie headers per hop:", rows3)
+    b = copy.deepcopy(good3)     # the cookies chosen for the first hop sent to the redirect target (other path)
+    b["events"][2]["obs"] = copy.deepcopy(good3["events"][1]["obs"])
+    bad.append(("PathLeak", b))
+    b = copy.deepcopy(good3)     # per-request cookie still sent after the redirect left the origin
+    b["events"][3]["obs"] = [[0, 1002]]
+    bad.append(("ReqCookieLeak", b))
+    b = copy.deepcopy(good3)     # per-request cookie dropped on a same-origin redirect
+    b["events"][2]["obs"] = [[0, 0]]
+    bad.append(("ReqCookieLost", b))
+    vs3, _ = _validate_parallel([good3])
     vs2, _ = _validate_parallel([good2])
     print("re-sent value trace accepted:", vs2[0].ok, vs2[0].clause, [e["val"] for e in good2["events"]])
     vs, _ = _validate_parallel([good] + [x for _, x in bad])
-    ok = vs[0].ok and vs2[0].ok and [e["val"] for e in good2["events"]] == [1, 1]
+    ok = (vs[0].ok and vs2[0].ok and [e["val"] for e in good2["events"]] == [1, 1]
+          and vs3[0].ok and rows3 == [[1, 1002], [0, 1002], [0, 0]])
     print("good trace accepted:", vs[0].ok, vs[0].clause)
     for (want, _), v in zip(bad, vs[1:]):
         hit = (not v.ok) and (want == "*" or v.clause == want) and v.info[1] == 0   # and no named deviation explains it
